@@ -3,17 +3,17 @@
 // run: ./check C14 --replay replays/C14/rand.c14_reach_i8.rs
 /// Test generated for harness `rand::c14_reach_i8` 
 ///
-/// Check for `cover`: "cover condition: incl && v == e && s == < i8 > :: MIN"
+/// Check for `assertion`: ""every value of the range is produced by some raw output""
 
 #[test]
-fn kani_concrete_playback_c14_reach_i8_14432087302263263397() {
+fn kani_concrete_playback_c14_reach_i8_2073784732692064350() {
     let concrete_vals: Vec<Vec<u8>> = vec![
         // -128
         vec![128],
         // 127
         vec![127],
-        // 127
-        vec![127],
+        // -128
+        vec![128],
         // 1
         vec![1],
     ];
